@@ -523,7 +523,7 @@ pub fn worker(ctx: &mut Ctx) {
 
     // C. clauses from rule vocabulary (+ prefix closure of some)
     {
-        let n = ctx.budget(80_000, 3_000_000);
+        let n = ctx.budget(80_000, 1_500_000);
         let mut rng = ctx.rng_global("sweep-C");
         for i in 0..n {
             unit += 1;
@@ -553,7 +553,7 @@ pub fn worker(ctx: &mut Ctx) {
 
     // D. hostile unicode in every front-end
     {
-        let n = ctx.budget(40_000, 1_500_000);
+        let n = ctx.budget(40_000, 800_000);
         let mut rng = ctx.rng_global("sweep-D");
         for i in 0..n {
             unit += 1;
@@ -576,7 +576,7 @@ pub fn worker(ctx: &mut Ctx) {
 
     // E. mutations of fixtures and rule sentences
     {
-        let n = ctx.budget(40_000, 1_500_000);
+        let n = ctx.budget(40_000, 800_000);
         let mut rng = ctx.rng_global("sweep-E");
         for i in 0..n {
             unit += 1;
@@ -688,7 +688,7 @@ pub fn worker(ctx: &mut Ctx) {
 
     // I. grammar-generated files (the C04 generator), intact, truncated and mutated
     {
-        let n = ctx.budget(20_000, 600_000);
+        let n = ctx.budget(20_000, 400_000);
         let mut rng = ctx.rng_global("sweep-I");
         for i in 0..n {
             unit += 1;
@@ -804,7 +804,7 @@ pub fn worker(ctx: &mut Ctx) {
 
     // J. configurations x dialects on rule sentences
     {
-        let n = ctx.budget(15_000, 400_000);
+        let n = ctx.budget(15_000, 250_000);
         let mut rng = ctx.rng_global("sweep-J");
         let mut cur: Option<(Cfg, Dialect)> = None;
         for i in 0..n {
